@@ -45,3 +45,23 @@ def trace_values(trace):
         vals[k] = v
         first.setdefault(k, v)
     return vals, first
+
+
+REPO_BUILD = os.path.join(ROOT, '.work', '_repo_build')
+
+
+def repo_build(targets=('bloch_runtime', 'bloch_compiler', 'bloch')):
+    """(Re)build /repo's current working tree in a build directory private to /verif (shared by all
+    checks, serialised by a lock).  Returns the build directory; raises Break when the build fails."""
+    import fcntl
+    os.makedirs(REPO_BUILD, exist_ok=True)
+    with open(os.path.join(REPO_BUILD, '.lock'), 'w') as lk:
+        fcntl.flock(lk, fcntl.LOCK_EX)
+        if not os.path.exists(os.path.join(REPO_BUILD, 'build.ninja')):
+            rc, out, _ = sh(['cmake', '-G', 'Ninja', '-S', '/repo', '-B', REPO_BUILD, '-DCMAKE_BUILD_TYPE=Release'], log=os.path.join(REPO_BUILD, 'configure.log'), timeout=600)
+            if rc != 0:
+                raise Break('NATIVE BUILD BREAK: cmake configure of /repo failed\n' + out[-1000:])
+        rc, out, _ = sh(['cmake', '--build', REPO_BUILD, '--target'] + list(targets), log=os.path.join(REPO_BUILD, 'build.log'), timeout=1800)
+        if rc != 0:
+            raise Break('NATIVE BUILD BREAK: /repo does not build\n' + out[-1500:])
+    return REPO_BUILD
